@@ -16,7 +16,7 @@ RULE = ('For each accepted AST (expressions, predicates, properties with metadat
         'invalid schema, sanity_check) applied to the AST, to a random sub-tree, or to the previous result; after every '
         'call all ASTs handed out so far are re-snapshotted. evaluations = API calls bracketed by snapshots; '
         'non-trivial = the call returned a new object or raised; distinct = (API sequence, input shape).')
-RULE_ADDED = ' Since the seeding rounds: but(data_type=...), postconditions on cast copies, sequence fields (shorter/longer/reversed tuples), annotated nodes, aggregates over tiny reference sets, half-open infinite ranges, same-alias-twice scenario, human-written corpus.'
+RULE_ADDED = ' Since the seeding rounds: but(data_type=...), postconditions on cast copies, sequence fields (shorter/longer/reversed tuples), annotated nodes, aggregates over tiny reference sets, half-open infinite ranges, same-alias-twice scenario, human-written corpus, quantifier copies over exchanged domains (but(domain=...), replacements reaching only the domain, nested quantifiers).'
 ASSUMPTIONS = ['direct constructor calls on caller-owned children (Not(a), And(a, b)) are outside the statement and not '
                'judged; the by-design in-place narrowing of nodes created inside the same call is not a violation']
 FLOORS = {
@@ -254,6 +254,38 @@ def run(ctx):
                                                   'difference': first_difference(snap, monitors.snapshot(r, with_ids=True))},
                                   set(base_feats) | {'api:replace_this_with_var', 'out:structure-or-identity'})
                     return
+        quants = [x for x in subtrees(root) if type(x).__name__ == 'HplQuantifier'][:3]
+        if quants and rng.random() < 0.35:
+            # copies of a quantifier over another domain, and replacements that reach only its domain: the condition
+            # object is shared between the caller's quantifier and the new one, whose constructor validates it again
+            from hpl import rewrite as RW
+            qn = gen.pick(rng, quants)
+            doms = [('set', (A.num('1'), A.num('2'))), ('range', A.num('1'), A.num('3'), False, False),
+                    ('set', (A.string('a'),)), ('set', (A.boolean(True),))]
+            steps = []
+            d = hplapi.outcome(hplapi.build_expr, gen.pick(rng, doms))
+            if d[0] == 'ok':
+                steps.append(('but(domain=<literal collection>)', lambda: qn.but(domain=d[1])))
+            for vn in sorted(S.hpl_free_vars(qn.domain))[:2]:
+                lit = hplapi.outcome(hplapi.build_expr, gen.pick(rng, (A.num('3'), A.string('a'))))
+                if lit[0] == 'ok':
+                    steps.append((f'replace_var_reference({vn}, <literal>)', lambda vn=vn, lit=lit: qn.replace_var_reference(vn, lit[1])))
+            steps.append(('split_and(input)', lambda: RW.split_and(root) if getattr(root, 'can_be_bool', True) else None))
+            steps.append(('replace_this_with_var(input, Q7)', lambda: RW.replace_this_with_var(root, 'Q7')))
+            ctx.begin_case(set(base_feats) | {'api:quantifier_copy', 'shape:quantifier-domain-exchange'})
+            done = []
+            for label, th in steps:
+                hplapi.outcome(th)
+                done.append(label)
+                changed = pub.check()
+                if changed:
+                    lab, what, r, snap = changed[0]
+                    ctx.violation('ast-mutated', {'input': text[:300], 'sequence': done, 'mutated': lab, 'what': what,
+                                                  'difference': first_difference(snap, monitors.snapshot(r, with_ids=True))},
+                                  set(base_feats) | {'api:quantifier_copy', 'out:input-condition-retyped'})
+                    return
+            ctx.evaluation('quant-domain-exchange|' + (A.shape(abs_e) if abs_e is not None else 'prop'), True)
+            ctx.count('quantifier_domain_exchanges')
         for step in range(rng.randrange(1, 4)):
             k = rng.random()
             if k < 0.5:
@@ -415,6 +447,23 @@ def run(ctx):
                     case.e = ('bin', gen.pick(rng, ('>', '<=', '+', '*')), call, gen.pick(rng, (A.num('3'), r2)))
                     if case.e[1] in ('+', '*'):
                         case.e = ('bin', '<', case.e, A.num('10'))
+                    t = gen.BOOL
+            if n % 13 == 5:
+                # quantifiers whose variable only occurs where any primitive fits (so its stored type stays wide), over
+                # domains of references, also nested with the outer variable inside the inner domain
+                tg5 = gen.Typed(rng, this=case.this, aliases=case.aliases, maxdepth=1)
+                r1, r2 = tg5.ref(gen.NUM, 0), tg5.ref(gen.NUM, 0)
+                arr, _ = tg5.ref_where(lambda pt: pt[0] == 'arr' and pt[1] == gen.NUM, 1)
+                if r1 is not None and r2 is not None:
+                    body = ('bin', gen.pick(rng, ('=', '!=')), A.var('qi'), r2)
+                    if rng.random() < 0.5:
+                        body = ('bin', 'and', body, ('bin', '>', r1, A.num('0')))
+                    inner_dom = gen.pick(rng, [('set', (r1, A.num('7'))), ('set', (r1, r2))] + ([arr] if arr is not None else []))
+                    q = ('quant', gen.pick(rng, ('forall', 'exists')), 'qi', inner_dom, body)
+                    if rng.random() < 0.5:
+                        q = ('quant', 'forall', 'qv', ('range', A.num('1'), A.num('3'), False, False),
+                             ('quant', q[1], 'qi', ('set', (A.var('qv'), A.num('7'))), body))
+                    case.e = q
                     t = gen.BOOL
             if not A.renderable(case.e):
                 continue
